@@ -106,7 +106,7 @@ def cases(draw):
 
 COLOR = {'-fdiagnostics-color', '-fcolor-diagnostics',
          '-fdiagnostics-color=always'}
-MAKE_ENV = {'MAKEFLAGS', 'MAKELEVEL', 'MFLAGS', 'MAKE_TERMOUT',
+MAKE_ENV = {'MAKEFLAGS', 'MAKELEVEL', 'MFLAGS', 'MAKE_TERMOUT', 'MAKEFILES',
             'MAKE_TERMERR', 'MAKEOVERRIDES', 'VF_LOG', 'REFNINJA_TRACE',
             'SHLVL', 'PWD', 'OLDPWD', '_'}
 
